@@ -1559,8 +1559,10 @@ def gen_crash(runner, tier, seed):
             part = muts[ci::len(cfgs)] + muts[(ci + 1) % len(cfgs)::len(cfgs)][:1000]
         s.send(seeds)
         s.send(core)
-        for ch in chunks(part, 5000):
+        for ch in chunks(part, 3000):
+            s.reset()                 # also a cut point for the validation chunks
             s.send(ch)
+        s.reset()
         # histories: mutated continuation segments on validated flows that hold partial parser state
         p4, p6 = peer4(), peer6()
         flows = [Flow(r.choice([p4, p6]), 30000 + i, r.choice([80, 111, 445]), r.randrange(1 << 32)) for i in range(60 if tier == "quick" else 600)]
@@ -1591,5 +1593,6 @@ def gen_crash(runner, tier, seed):
             s = runner.session(cfg, "crash matrix, release profile: self=%s logger=%s level=%d" % (bool(cfg.self_ips), cfg.logger, cfg.level), release=True)
             s.send(seeds)
             s.send(core)
-            for ch in chunks(muts[::3], 5000):
+            for ch in chunks(muts[::3], 3000):
+                s.reset()
                 s.send(ch)
